@@ -9,9 +9,13 @@ rows = []
 for f in sorted(glob.glob(os.path.join(HERE, "seeded", "*", "meta.json"))):
     m = json.load(open(f))
     name = os.path.basename(os.path.dirname(f))
-    what = m.get("what", "")
+    what = m.get("what", "") + " - needs: " + m.get("needs_to_manifest", "")
     checks = ", ".join("%s %s" % (k, v["verdict"]) for k, v in m["checks"].items())
     seeds = m.get("seed_sweep", "")
+    if m.get("seed_sweep_C09"):
+        seeds += " ; C09 " + m["seed_sweep_C09"]
+    if m.get("at_head") and not m["at_head"].get("still_violates", True):
+        seeds += " (no longer a violation at HEAD: " + ("patch does not apply" if not m["at_head"]["patch_applies"] else "neutralised by a later fix") + ")"
     rows.append("| %s | %s | %s | %s | %s |" % (name, "yes" if m["confirmed"] else "NO", what, checks, seeds))
 print("| seeded change | confirmed | what it is / what it needs | quick tier verdicts (VERIF_SEED=1) | caught at seeds |")
 print("|---|---|---|---|---|")
